@@ -624,6 +624,74 @@ func genC02(r *Run) {
 		r.Add(eV6Reenc, w)
 		r.Count(fmt.Sprintf("wire_len<%d", (len(w)/500+1)*500))
 	}
+	// values obtained by decoding and then editing their domain names in place (another name, another case,
+	// another order): they too are messages, and their encoding must decode to them
+	for i := 0; i < r.N(300, 20000); i++ {
+		mb, _ := dhcpv6.NewMessage()
+		mb.TransactionID = dhcpv6.TransactionID{7, byte(i >> 8), byte(i)}
+		n1, _ := r.validNames()
+		n2, _ := r.validNames()
+		n3, _ := r.validNames()
+		if len(n1) == 0 {
+			n1 = []string{"a.example"}
+		}
+		mb.AddOption(dhcpv6.OptDomainSearchList(&rfc1035label.Labels{Labels: n1}))
+		mb.AddOption(&dhcpv6.OptFQDN{Flags: 1, DomainName: &rfc1035label.Labels{Labels: append([]string{"host.example"}, n2...)}})
+		mb.AddOption(&dhcpv6.OptNTPServer{Suboptions: []dhcpv6.Option{&dhcpv6.NTPSuboptionSrvFQDN{Labels: rfc1035label.Labels{Labels: append([]string{"ntp.example"}, n3...)}}}})
+		d, err := dhcpv6.FromBytes(mb.ToBytes())
+		if err != nil {
+			continue
+		}
+		_ = d.ToBytes()
+		edit := func(l *rfc1035label.Labels) {
+			if len(l.Labels) == 0 {
+				return
+			}
+			j := r.Rng.Intn(len(l.Labels))
+			switch r.Rng.Intn(4) {
+			case 0:
+				l.Labels[j] = "other.example"
+			case 1:
+				if t, ok := toggleCase(l.Labels[j]); ok {
+					l.Labels[j] = t
+				} else {
+					l.Labels[j] = "Other.Example"
+				}
+			case 2:
+				k := r.Rng.Intn(len(l.Labels))
+				l.Labels[j], l.Labels[k] = l.Labels[k], l.Labels[j]
+			case 3:
+				l.Labels = append(l.Labels, "added.example")
+			}
+		}
+		walkV6(d, func(o dhcpv6.Option) {
+			switch x := o.(type) {
+			case *dhcpv6.OptFQDN:
+				edit(x.DomainName)
+			case *dhcpv6.OptNTPServer:
+				for _, so := range x.Suboptions {
+					if f, ok := so.(*dhcpv6.NTPSuboptionSrvFQDN); ok {
+						edit(&f.Labels)
+					}
+				}
+			default:
+				if o.Code() == dhcpv6.OptionDomainSearchList {
+					if l, ok := field(o, "DomainSearchList").(*rfc1035label.Labels); ok {
+						edit(l)
+					}
+				}
+			}
+		})
+		want := dumpLine(dumpMsg(d))
+		back, err := dhcpv6.FromBytes(d.ToBytes())
+		if err != nil {
+			r.Fail("roundtrip-edited-decode-fails", trunc(want, 800), err.Error())
+			continue
+		}
+		if got := dumpLine(dumpMsg(back)); got != want {
+			r.Fail("roundtrip-edited-names", trunc(want, 800), "decode(encode(m)) != m for a decoded message whose names were edited: "+firstDiff(want, got))
+		}
+	}
 	// each known type alone, as a single option (ParseOption)
 	for _, c := range knownV6Codes {
 		for k := 0; k < r.N(20, 400); k++ {
@@ -1055,4 +1123,20 @@ func (r *Run) Addr16() []byte {
 		copy(a, []byte{0xff, 0x02})
 	}
 	return a
+}
+
+// toggleCase flips the case of the first ASCII letter of s (octet-wise: names are not text)
+func toggleCase(s string) (string, bool) {
+	b := []byte(s)
+	for i, c := range b {
+		if c >= 'a' && c <= 'z' {
+			b[i] = c - 32
+			return string(b), true
+		}
+		if c >= 'A' && c <= 'Z' {
+			b[i] = c + 32
+			return string(b), true
+		}
+	}
+	return s, false
 }
